@@ -9,7 +9,9 @@ import OSProofs.C20Lemmas
 
 Rebuilding every player from the stored (mu, sigma) — fresh objects with other ids, names or
 object identities — changes no number that `rate` returns: `rate` commutes with every
-replacement of ids (`reid f`), for each of the five models, every outcome form (omitted, ranks,
+replacement of ids (`reid f`), for each of the five models, every gamma callback whose value does not
+depend on the `id` fields of the players it is handed (`GammaIdInv`: every tagged member, the
+team-reading callback `gammaTeamSigma`, any callback that reads the players through their (mu, sigma)), every outcome form (omitted, ranks,
 scores), every `tau` / `limit_sigma` option and **every** comparator and rank list (no length or
 order hypothesis).  Generic over the scalar type, so the statement holds bit-for-bit at `Float`.
 -/
@@ -22,19 +24,19 @@ variable {α ρ : Type} [Scalar α]
 /-- The (omega, delta) of every team, for each of the five models, is computed from the team
     aggregates' `mu`, `sig2` and `rank` only — never from the players they carry. -/
 theorem omegaDelta_reid (f : Nat → Nat) (K : Kind) (L : Leaves α) (P : Params α)
-    (ts : List (TeamAgg α)) :
+    (hg : GammaIdInv P.gamma) (ts : List (TeamAgg α)) :
     omegaDelta K L P (ts.map (reidAgg f)) = omegaDelta K L P ts := by
   cases K <;>
   simp only [omegaDelta, List.zipIdx_map, List.map_map, List.length_map, plC_reid, plSumQ_reid,
     plA_reid, othersOf_map, neighboursOf_map, Function.comp_def, Prod.map, id,
-    plOmegaDelta_reid, btPair_reid, tmPair_reid]
+    plOmegaDelta_reid f _ hg, btPair_reid f _ _ hg, tmPair_reid f _ _ _ _ _ hg]
 
 /-- `_compute` (any model) commutes with replacing the ids: same numbers, the new ids in the
     same slots. -/
 theorem compute_reid (f : Nat → Nat) (K : Kind) (L : Leaves α) (P : Params α)
-    (teams : List (List (Rating α))) (dense : List Nat) :
+    (hg : GammaIdInv P.gamma) (teams : List (List (Rating α))) (dense : List Nat) :
     compute K L P (reid f teams) dense = reid f (compute K L P teams dense) := by
-  simp only [compute, teamAggs_reid, omegaDelta_reid]
+  simp only [compute, teamAggs_reid, omegaDelta_reid f K L P hg]
   simp only [List.zip_map_left, List.map_map, reid_eq_map, Function.comp_def, Prod.map, id,
     applyTeam_reidAgg]
 
@@ -68,18 +70,18 @@ theorem reid_length (f : Nat → Nat) (teams : List (List (Rating α))) :
 /-- **`rateCore` commutes with replacing the ids**, whatever the ranks (given or omitted, of any
     length, under any comparator) and whatever the per-call options. -/
 theorem C20_rateCore_reid (f : Nat → Nat) (K : Kind) (L : Leaves α) (P : Params α)
-    (le : ρ → ρ → Bool) (teams : List (List (Rating α))) (ranks : Option (List ρ))
+    (hg : GammaIdInv P.gamma) (le : ρ → ρ → Bool) (teams : List (List (Rating α))) (ranks : Option (List ρ))
     (o : CallOpts α) :
     rateCore K L P le (reid f teams) ranks o = reid f (rateCore K L P le teams ranks o) := by
   unfold rateCore
   cases ranks with
   | none =>
-    simp only [inflate_reid, reid_length, compute_reid]
+    simp only [inflate_reid, reid_length, compute_reid f K L P hg]
     split
     · exact clampTeams_reid f _ _
     · rfl
   | some r =>
-    simp only [inflate_reid, unwind_reid, compute_reid]
+    simp only [inflate_reid, unwind_reid, compute_reid f K L P hg]
     split
     · exact clampTeams_reid f _ _
     · rfl
@@ -88,23 +90,23 @@ theorem C20_rateCore_reid (f : Nat → Nat) (K : Kind) (L : Leaves α) (P : Para
     scores) and each option, rating rebuilt players (same (mu, sigma), other ids) returns the same
     numbers in the same slots, carried by the rebuilt ids. -/
 theorem C20_rate_reid (f : Nat → Nat) (K : Kind) (L : Leaves α) (P : Params α)
-    (le : ρ → ρ → Bool) (neg : ρ → ρ) (teams : List (List (Rating α))) (oc : Outcome ρ)
+    (hg : GammaIdInv P.gamma) (le : ρ → ρ → Bool) (neg : ρ → ρ) (teams : List (List (Rating α))) (oc : Outcome ρ)
     (o : CallOpts α) :
     rate K L P le neg (reid f teams) oc o = reid f (rate K L P le neg teams oc o) := by
   cases oc with
-  | omitted => exact C20_rateCore_reid f K L P le teams none o
-  | ranks r => exact C20_rateCore_reid f K L P le teams (some r) o
-  | scores s => exact C20_rateCore_reid f K L P le teams (some (s.map neg)) o
+  | omitted => exact C20_rateCore_reid f K L P hg le teams none o
+  | ranks r => exact C20_rateCore_reid f K L P hg le teams (some r) o
+  | scores s => exact C20_rateCore_reid f K L P hg le teams (some (s.map neg)) o
 
 /-! ### the numbers do not depend on the ids -/
 
 /-- **The numbers `rate` returns are identical whatever the ids**: replacing every id changes no
     (mu, sigma) of the result, in any slot. -/
 theorem C20_rate_values (f : Nat → Nat) (K : Kind) (L : Leaves α) (P : Params α)
-    (le : ρ → ρ → Bool) (neg : ρ → ρ) (teams : List (List (Rating α))) (oc : Outcome ρ)
+    (hg : GammaIdInv P.gamma) (le : ρ → ρ → Bool) (neg : ρ → ρ) (teams : List (List (Rating α))) (oc : Outcome ρ)
     (o : CallOpts α) :
     valuesOf (rate K L P le neg (reid f teams) oc o) = valuesOf (rate K L P le neg teams oc o) := by
-  rw [C20_rate_reid, valuesOf_reid]
+  rw [C20_rate_reid f K L P hg, valuesOf_reid]
 
 /-- **Two games with the same numbers in the same nesting get the same numbers back**, whatever
     their ids are (equal, distinct, shared between slots or not): `rate` is a function of the
@@ -112,23 +114,23 @@ theorem C20_rate_values (f : Nat → Nat) (K : Kind) (L : Leaves α) (P : Params
     objects — are rated exactly like the originals.  (Equality of `valuesOf` includes equality of
     the nesting.) -/
 theorem C20_rate_values_of_eq (K : Kind) (L : Leaves α) (P : Params α)
-    (le : ρ → ρ → Bool) (neg : ρ → ρ) (teams teams' : List (List (Rating α))) (oc : Outcome ρ)
+    (hg : GammaIdInv P.gamma) (le : ρ → ρ → Bool) (neg : ρ → ρ) (teams teams' : List (List (Rating α))) (oc : Outcome ρ)
     (o : CallOpts α) (h : valuesOf teams = valuesOf teams') :
     valuesOf (rate K L P le neg teams oc o) = valuesOf (rate K L P le neg teams' oc o) := by
   have hs : reid (fun _ => 0) teams = reid (fun _ => 0) teams' := by
     rw [reid_const_eq, reid_const_eq, h]
-  rw [← C20_rate_values (fun _ => 0) K L P le neg teams, ← C20_rate_values (fun _ => 0) K L P le neg teams',
-    hs]
+  rw [← C20_rate_values (fun _ => 0) K L P hg le neg teams,
+    ← C20_rate_values (fun _ => 0) K L P hg le neg teams', hs]
 
 /-- the same for `rateCore` -/
 theorem C20_rateCore_values_of_eq (K : Kind) (L : Leaves α) (P : Params α)
-    (le : ρ → ρ → Bool) (teams teams' : List (List (Rating α))) (ranks : Option (List ρ))
+    (hg : GammaIdInv P.gamma) (le : ρ → ρ → Bool) (teams teams' : List (List (Rating α))) (ranks : Option (List ρ))
     (o : CallOpts α) (h : valuesOf teams = valuesOf teams') :
     valuesOf (rateCore K L P le teams ranks o) = valuesOf (rateCore K L P le teams' ranks o) := by
   have hs : reid (fun _ => 0) teams = reid (fun _ => 0) teams' := by
     rw [reid_const_eq, reid_const_eq, h]
-  have h1 := congrArg valuesOf (C20_rateCore_reid (fun _ => 0) K L P le teams ranks o)
-  have h2 := congrArg valuesOf (C20_rateCore_reid (fun _ => 0) K L P le teams' ranks o)
+  have h1 := congrArg valuesOf (C20_rateCore_reid (fun _ => 0) K L P hg le teams ranks o)
+  have h2 := congrArg valuesOf (C20_rateCore_reid (fun _ => 0) K L P hg le teams' ranks o)
   rw [valuesOf_reid] at h1 h2
   rw [← h1, ← h2, hs]
 
@@ -136,7 +138,7 @@ theorem C20_rateCore_values_of_eq (K : Kind) (L : Leaves α) (P : Params α)
     under arbitrary other ids, and the outcome has one entry per team, then rating `teams'` gives
     exactly the result of rating `teams` with the ids of `teams'` written slot by slot. -/
 theorem C20_rate_rebuilt (K : Kind) (L : Leaves α) (P : Params α)
-    (le : ρ → ρ → Bool) (neg : ρ → ρ) (teams teams' : List (List (Rating α))) (oc : Outcome ρ)
+    (hg : GammaIdInv P.gamma) (le : ρ → ρ → Bool) (neg : ρ → ρ) (teams teams' : List (List (Rating α))) (oc : Outcome ρ)
     (o : CallOpts α) (h : valuesOf teams = valuesOf teams') (hoc : oc.fits teams.length) :
     rate K L P le neg teams' oc o = setIds (idsOf teams') (rate K L P le neg teams oc o) := by
   have hlen : teams'.length = teams.length := by
@@ -148,18 +150,49 @@ theorem C20_rate_rebuilt (K : Kind) (L : Leaves α) (P : Params α)
   apply game_ext
   · rw [C02_ids_rate K L P le neg teams' oc o (hlen ▸ hoc), setIds_ids _ _ hshape]
   · rw [setIds_values _ _ hshape]
-    exact (C20_rate_values_of_eq K L P le neg teams teams' oc o h).symm
+    exact (C20_rate_values_of_eq K L P hg le neg teams teams' oc o h).symm
 
 /-- **`rate` commutes with an arbitrary slot-wise replacement of the ids** (`ids` in the nesting of
     the game, one outcome entry per team). -/
 theorem C20_rate_setIds (K : Kind) (L : Leaves α) (P : Params α)
-    (le : ρ → ρ → Bool) (neg : ρ → ρ) (teams : List (List (Rating α))) (ids : List (List Nat))
+    (hg : GammaIdInv P.gamma) (le : ρ → ρ → Bool) (neg : ρ → ρ) (teams : List (List (Rating α))) (ids : List (List Nat))
     (oc : Outcome ρ) (o : CallOpts α) (hids : shapeOf ids = shapeOf teams)
     (hoc : oc.fits teams.length) :
     rate K L P le neg (setIds ids teams) oc o = setIds ids (rate K L P le neg teams oc o) := by
-  have := C20_rate_rebuilt K L P le neg teams (setIds ids teams) oc o
+  have := C20_rate_rebuilt K L P hg le neg teams (setIds ids teams) oc o
     (setIds_values ids teams hids).symm hoc
   rwa [setIds_ids ids teams hids] at this
+
+/-! ### the statements for the tagged family (no hypothesis on gamma: a tagged member reads no player) -/
+
+/-- `rate` commutes with replacing the ids, any gamma of the tagged family -/
+theorem C20_rate_reid_tagged (f : Nat → Nat) (K : Kind) (L : Leaves α) (P : Params α)
+    (hg : P.gamma.Tagged) (le : ρ → ρ → Bool) (neg : ρ → ρ) (teams : List (List (Rating α)))
+    (oc : Outcome ρ) (o : CallOpts α) :
+    rate K L P le neg (reid f teams) oc o = reid f (rate K L P le neg teams oc o) :=
+  C20_rate_reid f K L P (gam_tagged_idInv hg) le neg teams oc o
+
+/-- same numbers in the same nesting give the same numbers back, any gamma of the tagged family -/
+theorem C20_rate_values_of_eq_tagged (K : Kind) (L : Leaves α) (P : Params α)
+    (hg : P.gamma.Tagged) (le : ρ → ρ → Bool) (neg : ρ → ρ) (teams teams' : List (List (Rating α)))
+    (oc : Outcome ρ) (o : CallOpts α) (h : valuesOf teams = valuesOf teams') :
+    valuesOf (rate K L P le neg teams oc o) = valuesOf (rate K L P le neg teams' oc o) :=
+  C20_rate_values_of_eq K L P (gam_tagged_idInv hg) le neg teams teams' oc o h
+
+/-- rebuilt players, any gamma of the tagged family -/
+theorem C20_rate_rebuilt_tagged (K : Kind) (L : Leaves α) (P : Params α)
+    (hg : P.gamma.Tagged) (le : ρ → ρ → Bool) (neg : ρ → ρ) (teams teams' : List (List (Rating α)))
+    (oc : Outcome ρ) (o : CallOpts α) (h : valuesOf teams = valuesOf teams') (hoc : oc.fits teams.length) :
+    rate K L P le neg teams' oc o = setIds (idsOf teams') (rate K L P le neg teams oc o) :=
+  C20_rate_rebuilt K L P (gam_tagged_idInv hg) le neg teams teams' oc o h hoc
+
+/-- slot-wise replacement of the ids, any gamma of the tagged family -/
+theorem C20_rate_setIds_tagged (K : Kind) (L : Leaves α) (P : Params α)
+    (hg : P.gamma.Tagged) (le : ρ → ρ → Bool) (neg : ρ → ρ) (teams : List (List (Rating α)))
+    (ids : List (List Nat)) (oc : Outcome ρ) (o : CallOpts α) (hids : shapeOf ids = shapeOf teams)
+    (hoc : oc.fits teams.length) :
+    rate K L P le neg (setIds ids teams) oc o = setIds ids (rate K L P le neg teams oc o) :=
+  C20_rate_setIds K L P (gam_tagged_idInv hg) le neg teams ids oc o hids hoc
 
 /-- the hypotheses of `C20_rate_values_of_eq` / `C20_rate_rebuilt` are met by genuinely different
     games: same numbers, other ids -/
